@@ -29,7 +29,33 @@ pub fn g9_wide(tables: u64) -> Geo {
 
 /// host clusters 0..used-1 in use (data clusters fill up), the next allocation is cluster `used`
 pub fn filled_image(name: &str, kind: &str, tables: u64, used: usize) -> ImageSet {
-    let g = g9_wide(tables);
+    filled_image_geo(name, kind, &g9_wide(tables), used)
+}
+
+/// GF geometry (1 KiB clusters, 128-cluster refblocks in two 64-entry slices) with 125 of the
+/// first refblock's clusters in use: the next multi-cluster allocation is partial and the one
+/// after it creates refblock 1, i.e. loads a third refblock slice into a 2-slice cache
+pub fn gf_filled_image() -> ImageSet {
+    filled_image_geo("GF-filled", "filled", &GF, 125)
+}
+
+/// GF geometry, refblock 0 (two 64-entry slices) in use except for the last two clusters of
+/// each slice; refblock 1 does not exist yet. Four single-cluster allocations dirty both slices,
+/// the fifth creates refblock 1, i.e. loads a third slice into a 2-slice cache and evicts a dirty one.
+pub fn gf_holes_image() -> ImageSet {
+    let g = GF;
+    let mut s = ImageSpec::new(g.cluster_bits, g.order, g.vsize());
+    let ncl = s.guest_clusters();
+    s.kinds = vec![GKind::Unalloc; ncl];
+    for c in 0..118 {
+        s.kinds[c] = GKind::Data;
+    }
+    s.skip_host = vec![61, 62, 63, 126, 127];
+    from_specs("GF-holes", "filled", vec![s])
+}
+
+pub fn filled_image_geo(name: &str, kind: &str, g: &Geo, used: usize) -> ImageSet {
+    let g = g.clone();
     let mut s = ImageSpec::new(g.cluster_bits, g.order, g.vsize());
     let ncl = s.guest_clusters();
     s.kinds = vec![GKind::Unalloc; ncl];
@@ -87,6 +113,8 @@ pub fn find_extra_image(name: &str) -> Option<ImageSet> {
         "G9w-rb-edge" => Some(rb_edge_image()),
         "G9w-rt-edge" => Some(rt_edge_image()),
         "G9w-rb63-edge" => Some(rb63_edge_image()),
+        "GF-filled" => Some(gf_filled_image()),
+        "GF-holes" => Some(gf_holes_image()),
         "G9w-short-l1" => Some(short_l1_image()),
         _ => None,
     }
